@@ -568,6 +568,9 @@ def rule_bulk_accessors(ctx):
 
 
 def run(ctx):
+    from . import pyrules
+    pyrules.rule_selector_truthiness(ctx, 'R14.13', ('Particles', 'Simulation'))   # particle 0 and hash 0 are selectable
+    pyrules.rule_wrapper_state(ctx, 'R18.10')      # the particle view is rebuilt from the C array on every access
     rule_bulk_accessors(ctx)
     rule_python_index(ctx)
     rule_active_count_every_path(ctx)
